@@ -113,6 +113,38 @@ def oracle(case):
     return fails, r
 
 
+def storage_oracle(case):
+    """ "leaves every other column bit-identical" for chains held in another floating-point type (single precision as saved
+    to disk, extended precision): the un-blinded columns come back with the storage type and the bytes they had"""
+    from hierarc.Diagnostics.blinding import blind_posterior
+    cols, names = case["cols"], case["names"]
+    if any(j >= len(cols) for j, nm in enumerate(names) if nm in ("h0", "lambda_mst")):
+        return []
+    fails = []
+    base = np.array(cols, dtype=float).T
+    for dt, tag in ((np.float32, "float32"), (np.longdouble, "longdouble")):
+        post = base.astype(dt)
+        if dt is np.longdouble:
+            post = post * (1 + np.longdouble(2) ** -60)        # digits a double cannot hold
+        keep = post.copy()
+        try:
+            with np.errstate(all="ignore"):
+                out = np.asarray(blind_posterior(post, list(names)))
+        except Exception as e:  # noqa
+            fails.append("%s chain raised %s" % (tag, err_enum(e)))
+            continue
+        if post.tobytes() != keep.tobytes():
+            fails.append("%s input array modified" % tag)
+        for j in range(base.shape[1]):
+            nm = names[j] if j < len(names) else None
+            if nm in ("h0", "lambda_mst"):
+                continue
+            if out.shape != keep.shape or out.dtype != keep.dtype or np.ascontiguousarray(out[:, j]).tobytes() != np.ascontiguousarray(keep[:, j]).tobytes():
+                fails.append("column %d (%s) of a %s chain not bit-identical (returned storage type %s)" % (j, nm, tag, out.dtype))
+                break
+    return fails
+
+
 def encode(case):
     return {"cols": fll(case["cols"]), "names": case["names"], "factors": [f2b(x) for x in case["factors"]]}
 
@@ -134,8 +166,10 @@ def run(ctx, res):
         {"cols": [[1.0, 2.0], [3.0, 4.0]], "names": [], "factors": [1.0, 1.0]},
     ]
     impl = []
-    for c in cases:
+    for k_, c in enumerate(cases):
         fails, r = oracle(c)
+        if k_ % 5 == 0:
+            fails = list(fails) + storage_oracle(c)
         impl.append(r)
         res.evaluations += 1
         addressed = [nm for j, nm in enumerate(c["names"]) if nm in ("h0", "lambda_mst") and j < len(c["cols"])]
